@@ -336,8 +336,15 @@ namespace bloch::cli {
                                       << " | " << std::setw(5) << "prob"
                                       << "\n";
                             std::cout << std::string(outcomeWidth, '-') << "-+-------+-----\n";
+                            // Probabilities are relative to this variable's own total: a tracked
+                            // variable whose scope ends several times per shot (loop bodies, helper
+                            // functions) contributes more than one outcome per shot.
+                            long long total = 0;
+                            for (const auto& p : vals) total += p.second;
                             for (auto& p : vals) {
-                                double prob = static_cast<double>(p.second) / shots;
+                                double prob = total > 0 ? static_cast<double>(p.second) /
+                                                              static_cast<double>(total)
+                                                        : 0.0;
                                 std::cout << std::left << std::setw(static_cast<int>(outcomeWidth))
                                           << p.first << " | " << std::right << std::setw(5)
                                           << p.second << " | " << std::setw(5) << prob << "\n";
